@@ -7,8 +7,10 @@
  *      ops    : in:cap;in:cap;...   in = <n> | h (last hint) | h+<k> | h-<k> | a (all remaining) ; cap = <n> | r (1<<20)
  *               the list is cycled until the input is consumed and the last call returned 0 (or error / maxcalls)
  *      -> <id> OK <outhex> offered:cap:consumed:produced:ret|E<name>:streamStage:stage:expected:lhSize:inPos:outStart:outEnd:hostage:inBuffSize:outBuffSize;...
- *  Y <id> <params> <inputhex> <ops> [pledged]           streaming compression history (ZSTD_compressStream2)
+ *  Y <id> <params> <inputhex> <ops> [pledged|-] [pre=<n>]   streaming compression history (ZSTD_compressStream2)
+ *      pre=<n> : before the history, the same context compresses the first n input bytes with one ZSTD_compressCCtx call (output dropped)
  *      params : "-" or id:value,...   ops : in:cap:dir;...  in = <n> | h (input hint) | h+<k> | h-<k> | b (blockSize) | b+<k> | b-<k> | a
+ *               cap = <n> | r (1<<20) | c[+-k] (compressBound(blockSize) +- k) | C[+-k] (compressBound(bytes offered) +- k)
  *               after the list, "a:r:2" is repeated until the frame is complete
  *      -> <id> OK <outhex> offered:cap:dir:consumed:produced:ret|E<name>:streamStage:inBuffPos:inToCompress:inBuffTarget:outBuffContentSize:outBuffFlushedSize:frameEnded:notConsumed:blockSize:inBuffSize:outBuffSize:hint:windowLog:maxBlockSize;...
  *  L <id> <level> <inputhex> <inchunk> <outchunk>       legacy ZBUFF_* round trip  -> <id> OK <framehex> <regenhex>
@@ -140,10 +142,17 @@ static void cmd_Y(char** t, int nt) {
     ZSTD_CCtx* c = ZSTD_createCCtx(); size_t r = apply_cparams(c, t[2]);
     char* ops = strdup(t[4]); char* optok[4096]; int nops = 0, k = 0; char* sv = NULL; char* p;
     int stableOut = 0, frames_done = 0, ending = 0; size_t end_limit = 0; size_t rcap = 1 << 16, rl = 0; char* rec = (char*)malloc(rcap);
-    unsigned long long pledged = nt > 5 ? strtoull(t[5], NULL, 10) : (unsigned long long)-1;
+    int has_pledge = nt > 5 && strcmp(t[5], "-") != 0;
+    unsigned long long pledged = has_pledge ? strtoull(t[5], NULL, 10) : (unsigned long long)-1;
     rec[0] = 0;
     if (ZSTD_isError(r)) { perr(id, r); goto done; }
-    if (nt > 5) { r = ZSTD_CCtx_setPledgedSrcSize(c, pledged); if (ZSTD_isError(r)) { perr(id, r); goto done; } }
+    if (nt > 6 && !strncmp(t[6], "pre=", 4)) {   /* a single-call compression on the same context comes first */
+        size_t pn = (size_t)strtoull(t[6] + 4, NULL, 10); size_t pr;
+        if (pn > n) pn = n;
+        pr = ZSTD_compressCCtx(c, out, cap_total, in, pn, 3);
+        if (ZSTD_isError(pr)) { perr(id, pr); goto done; }
+    }
+    if (has_pledge) { r = ZSTD_CCtx_setPledgedSrcSize(c, pledged); if (ZSTD_isError(r)) { perr(id, r); goto done; } }
     { int v = 0; ZSTD_CCtx_getParameter(c, ZSTD_c_stableOutBuffer, &v); stableOut = v; }
     for (p = strtok_r(ops, ";", &sv); p && nops < 4096; p = strtok_r(NULL, ";", &sv)) optok[nops++] = p;
     for (;;) {
@@ -155,7 +164,12 @@ static void cmd_Y(char** t, int nt) {
         il = (size_t)(c1 - op_); if (il > 31) il = 31; memcpy(itok, op_, il); itok[il] = 0;
         offered = tok_in(itok, c_hint_usable(c), bs, n - ipos);
         if (offered > n - ipos) offered = n - ipos;
-        cap = (c1[1] != 'r') ? (size_t)strtoull(c1 + 1, NULL, 10) : ((size_t)1 << 20);
+        if (c1[1] == 'r') cap = (size_t)1 << 20;
+        else if (c1[1] == 'c' || c1[1] == 'C') {   /* c[+-k] = compressBound(blockSize) +- k ; C[+-k] = compressBound(offered) +- k */
+            size_t base = ZSTD_compressBound(c1[1] == 'c' ? bs : offered); long d = 0;
+            if (c1[2] == '+' || c1[2] == '-') d = strtol(c1 + 2, NULL, 10);
+            cap = (d < 0 && (size_t)(-d) > base) ? 0 : base + d;
+        } else cap = (size_t)strtoull(c1 + 1, NULL, 10);
         dir = atoi(c2 + 1);
         /* API contract: once ZSTD_e_end was issued the frame takes no further input and must be driven by e_end until it returns 0 */
         if (ending) { offered = end_limit - ipos; dir = 2; }
@@ -192,7 +206,7 @@ done:
 static void cmd_L(char** t) {
     const char* id = t[1]; int level = atoi(t[2]); size_t n; unsigned char* in = unhex(t[3], &n);
     size_t ichunk = (size_t)strtoull(t[4], NULL, 10), ochunk = (size_t)strtoull(t[5], NULL, 10);
-    size_t cap = ZSTD_compressBound(n) + 4096, cpos = 0, ipos = 0, r = 0;
+    size_t cap = ZSTD_compressBound(n) + n + 65536 /* every flush adds a block header */, cpos = 0, ipos = 0, r = 0;
     unsigned char* cbuf = (unsigned char*)malloc(cap); unsigned char* rbuf = (unsigned char*)malloc(n + 1); size_t rpos = 0;
     ZBUFF_CCtx* zc = ZBUFF_createCCtx(); ZBUFF_DCtx* zd = ZBUFF_createDCtx(); int guard = 0;
     if (ichunk == 0) ichunk = 1; if (ochunk == 0) ochunk = 1;
